@@ -5,6 +5,8 @@ import common
 
 PROPS = "RotoV.Props.C03"
 PROPS_GLUE = "RotoV.Props.C03Glue"
+PROPS_VARIANT = "RotoV.Props.C03Variant"
+PROPS_RUNTIME = "RotoV.Props.C03Runtime"
 GEN = os.path.join(common.LEAN, "RotoV", "Generated", "C03Dumps.lean")
 
 
@@ -30,7 +32,9 @@ def search(ctx):
 
 def run(ctx):
     # the per-field loops of drops.rs / clones.rs as they are written today
-    ctx.extract(["glueloops"])
+    # and the ErasedList functions that receive an element by raw pointer (src/value/list.rs),
+    # with the function every script-visible list method hands its DynVal to (src/runtime/basic.rs)
+    ctx.extract(["glueloops", "listown"])
     built = ctx.build_harness("c03")
     if built:
         emit_dumps(ctx)
@@ -38,6 +42,10 @@ def run(ctx):
     for mod, extra in [
         (PROPS, ["RotoV.Lemmas.Mir", "RotoV.Model.Mir", "RotoV.Model.MirFrozen", "RotoV.Generated.C03Dumps"]),
         (PROPS_GLUE, ["RotoV.Lemmas.Glue", "RotoV.Model.Glue", "RotoV.Generated.GlueLoops"]),
+        (PROPS_VARIANT, ["RotoV.Lemmas.MirVariant", "RotoV.Model.MirVariant"]),
+        (PROPS_VARIANT + "Now", ["RotoV.Generated.C03Dumps"]),
+        (PROPS_RUNTIME, ["RotoV.Model.ListOwn"]),
+        (PROPS_RUNTIME + "Now", ["RotoV.Generated.ListOwn"]),
     ]:
         ctx.prove(mod, extra_modules=extra)
         theorems += ctx.coverage.get("theorems", [])
@@ -58,12 +66,17 @@ def run(ctx):
         "(call_drop_of, call_clone_function, the discriminant switch with the last variant as default, layout_of, LayoutBuilder) is a hand model, "
         "compared with the generated drop functions in the real LIR for every generated declaration; the reference placement of leaves is the one of "
         "Lowerer::location (fresh builder, tag first, every field added in order)",
-        "the program quantifier is sampled: ownCheck runs on the compiler's actual output for generated programs and the repository's scripts",
+        "the program quantifier is sampled: ownCheck and varCheck run on the compiler's actual output for generated programs and the repository's scripts",
+        "variant layer (RotoV/Model/MirVariant.lean): a read `clone x.V.i` of a tracked variable is wrong iff x holds another variant of its type "
+        "(variant numbers beyond the type's variants, which only the oracle of the semantics can produce, stand for no value); validated by the "
+        "measured oracle (poisoned ids: a clone out of a dropped / replaced value counts as use after drop)",
+        "runtime boundary (RotoV/Model/ListOwn.lean): the statement -> OStmt mapping of the translator target `listown` (extract/src/targets/c03.rs); "
+        "RawList::push / contains / index are classified by what they do with the pointer (copy into the list and count / only eq_fn)",
     ]
     return ctx.finish(
         level="proof",
         rule="a class is distinct by (verdict, constructs used in main: while/for/match/guards/return/accept/reject/?/&&/||/record/enum/"
-             "f-string/constant/list/wildcard/field-assign/push with counts capped at 3); every program runs on 32 steering inputs "
+             "f-string/constant/list/wildcard/field-assign/push/contains/index/concat/swap/guards that assign with counts capped at 3); every program runs on 32 steering inputs "
              "(n,m in {0,1,2,5}, c in {false,true}), twice where balanced (second call measures heap allocations); corpus items count once; "
              "a glue program is distinct by the field pattern of its declarations (size class of each non-droppable field, D = droppable leaf, "
              "O = Tk?, R/E = nested record/enum, order kept)",
